@@ -35,7 +35,7 @@ MANIFEST = {
             "property of the type's shape, so it covers every value once C02 fixes per-kind lengths.",
     "note": "Derive inputs outside the corpus shapes are covered only by the corpus (unit/newtype/tuple/named structs, four variant forms, generics, nesting, "
             "0/1/2/127/128/129 variants); #[serde(...)] attributes that change a shape are out of scope. Trusted: rustc const evaluation, C02's per-kind lengths.",
-    "technique": "static analysis: HIR constant trees -> polynomial identity against the spec's size algebra + constant-folded helper evaluation + const-assert compile witnesses",
+    "technique": "static analysis: constant bodies (MIR/HIR) -> polynomial identity against the spec's size algebra + constant-folded helper evaluation + const-assert compile witnesses",
 }
 
 PRIM = {"bool": 1, "u8": 1, "i8": 1, "f32": 4, "f64": 8, "char": 5, "()": 0}
